@@ -87,6 +87,9 @@ def run_harness(path, repo):
 
 
 def do_replay_file(path):
+    # the path printed in a VIOLATION line is relative to /verif
+    if not os.path.isabs(path):
+        path = os.path.abspath(path) if os.path.exists(path) else os.path.join(VERIF, path)
     rp = json.load(open(path))
     r = run_harness(path, W.REPO)
     print(json.dumps(r, indent=1, default=repr))
